@@ -74,6 +74,18 @@ func (h *Hosts) RemoveAll(hostnames []string) {
 	}
 }
 
+// ChangeHost flags a host as changed. It must be called before changing
+// the paths of a host that was not removed and added again: a copy of its
+// current state is tracked as the removed one.
+func (h *Hosts) ChangeHost(host *Host) {
+	if h.itemsAdd[host.Hostname] != host {
+		old := *host
+		old.Paths = append([]*HostPath{}, host.Paths...)
+		h.itemsDel[host.Hostname] = &old
+		h.itemsAdd[host.Hostname] = host
+	}
+}
+
 // FindTargetRedirect ...
 func (h *Hosts) FindTargetRedirect(redirfrom string, isRegex bool) *Host {
 	if redirfrom == "" {
